@@ -25,3 +25,108 @@ INFO = {
             'partial files left by a faulted write are not judged; the next fault-free write is',
         ]),
 }
+
+_SOLVER_COMPONENTS = {'real': ['optimism.Objective (Objective, ScaledObjective, PrecondStrategy)', 'optimism.EquationSolver',
+                               'optimism.WarmStart', 'optimism.SparseCholesky', 'scipy cg/gmres behind recording wrappers'],
+                      'stub': ['sksparse.cholmod -> dense LAPACK Cholesky with an injected-failure plan (sim/fakes/sksparse)']}
+
+INFO['C01'] = dict(
+    rule='one evaluation = one seeded program: an objective family (Q+, Qc, Qi, S, L; n in 1..40; cond up to 1e8) + up to 9 caller '
+         'ops (solve via nonlinear_equation_solve or trust_region_minimize with swarm-drawn settings, resume, refresh, warm_only, '
+         'restart) + faults (Cholesky failure masks, NaN barrier, iteration/radius caps, stale preconditioner, truncated warm-start '
+         'CG). Oracles on every callback iterate and return, against a closed-form numpy evaluator. non-trivial = at least one '
+         'iterate reported; distinct = distinct (family, dimension class, op/outcome sequence, fault kinds fired) signatures',
+    sim_time_unit='reported solver iterates', components=_SOLVER_COMPONENTS,
+    probe_names=['tr:model_increase', 'tr:model_increase_accepted', 'tr:nan_trial', 'tr:accepted', 'tr:rejected',
+                 'L:landing_start_built', 'flag_audit_informative', 'flag_audit_vacuous', 'forced_first_refresh'],
+    assumptions=COMMON_ASSUME + [
+        'rounding slack of the independent evaluator = 1e3 * eps * sum of term magnitudes; audits whose slack exceeds tol/10 are counted as vacuous',
+        'convex clause premise: family Qc, cond <= 1e3, |x0 - x*| <= 50, get_settings() defaults, preconditioner refreshed',
+        'known finding F-C01 (success exit at an uphill trial point) is reported as KNOWN-FINDING, not as VIOLATION'])
+INFO['C06'] = dict(
+    rule='same programs as C01 with indefinite / symmetric-start families emphasised; every call the running solvers make to '
+         'solve_trust_region_minimization and dogleg_step is audited against dense references (H from hess-vec columns, M from '
+         'the factorised preconditioner). non-trivial / distinct as C01',
+    sim_time_unit='reported solver iterates', components=_SOLVER_COMPONENTS,
+    probe_names=['cg:boundary', 'cg:neg curve', 'cg:interior', 'cg:interior_', 'cg:preconditioned_norm', 'dogleg'],
+    assumptions=COMMON_ASSUME + [
+        'in-situ only: the sub-problems audited are those the simulated drivers pose (n <= 40); treigen.solve and direct synthetic calls are NOT covered',
+        'preconditioned-norm radius clauses are asserted (to 5e-2) only where the oracle\'s own CG keeps conjugacy to 1e-6; otherwise skipped and counted',
+        'interior-residual clause skipped where the recurrence-drift allowance exceeds 10% of the tolerance'])
+INFO['C19'] = dict(
+    rule='same engine; programs emphasise load steps with warm start in the bc/design slots and a ScaledObjective replica driven in '
+         'lock step with the plain Objective. non-trivial / distinct as C01',
+    sim_time_unit='reported solver iterates', components=_SOLVER_COMPONENTS,
+    probe_names=['scaled_compared'],
+    assumptions=COMMON_ASSUME + [
+        'warm-start clause uses the tolerance captured at the WarmStart.cg seam and is skipped when cg reports non-convergence, is truncated by the injector, or the Hessian is not PD',
+        'hand-over clause for the AL / bound-constrained / SPG drivers is asserted inside the C04 / C05 engines (violations are reported there as C19 seen-in-other-engine)'])
+INFO['C04'] = dict(
+    rule='one evaluation = objective family (Qc/Qi, n<=8) + up to 6 inequality constraints (linear, concave-quadratic ball, smooth '
+         'nonlinear) arranged to be active / weakly active / redundant / infeasible at the start + up to 4 ops (al_solve, bound_solve, '
+         'restart, refresh) with faults (sub-solver caps, Cholesky failures, GMRES caps). non-trivial = at least one normal return; '
+         'distinct = (family, n, m, situation, op/outcome sequence, faults) signatures',
+    sim_time_unit='outer AL iterations observed', components={'real': _SOLVER_COMPONENTS['real'] + ['optimism.AlSolver', 'optimism.ConstrainedObjective', 'optimism.BoundConstrainedObjective', 'optimism.BoundConstrainedSolver', 'optimism.NewtonSolver'], 'stub': _SOLVER_COMPONENTS['stub']},
+    probe_names=['al:raised_not_converged', 'bound:raised_not_converged', 'start:infeasible'],
+    assumptions=COMMON_ASSUME + [
+        'KKT bounds are derived from the termination test |[grad_x L_A ; FB(kappa0 c, lam)]| < tol (DESIGN.md C04); a solve that raises is not a return',
+        'convex clause: reference minimiser by active-set enumeration with dense Newton-KKT, used only if its own KKT residual verifies to 1e-9',
+        'use_newton_only=True is excluded (that mode never returns normally)'])
+INFO['C05'] = dict(
+    rule='one evaluation = objective family (Qc/Qi, n<=12) + box (finite / one-sided / free / degenerate per coordinate) + start in the '
+         'interior, on faces or at a vertex + up to 4 ops (spg_min, spg_solve with parameter change, restart) with caps and Cholesky '
+         'faults; project / project_onto_tr monitored in situ. non-trivial = at least one reported iterate',
+    sim_time_unit='reported solver iterates', components={'real': ['optimism.TrustRegionSPG', 'optimism.Objective', 'optimism.WarmStart', 'optimism.SparseCholesky', 'scipy.optimize.brentq'], 'stub': _SOLVER_COMPONENTS['stub']},
+    probe_names=['spg:no_cauchy_point', 'project_tr:far', 'project_tr:near'],
+    assumptions=COMMON_ASSUME + [
+        'trust-region-projection radius clause allows brentq\'s own default xtol/rtol on the segment parameter (4*(2e-12+4eps)*|target-centre|) and is skipped where that exceeds 1% of the radius',
+        'RuntimeError("No acceptable Cauchy point") aborts the op; iterates reported before it are still judged'])
+INFO['C07'] = dict(
+    rule='one evaluation = K<=5 step forward history through nonlinear_solve_with_state or nonlinear_solve (design-only API with the '
+         'other slots moved via objective.p), parameters smooth functions of theta (dim<=4), optional path-dependent state slot; then '
+         'jax.vjp reverse sweep, optionally after objective.p was overwritten / the preconditioner refreshed elsewhere. Cotangent vs dense '
+         'numpy IFT propagation. non-trivial = a cotangent was produced',
+    sim_time_unit='forward load steps', components={'real': ['optimism.inverse.NonlinearSolve (both custom-VJP rules)'] + _SOLVER_COMPONENTS['real'], 'stub': _SOLVER_COMPONENTS['stub']},
+    probe_names=['ift_compared', 'ift_bound_loose'],
+    assumptions=COMMON_ASSUME + [
+        'component level only in this check; FE-level helper VJPs (MechanicsInverse, AdjointFunctionSpace) are not covered by a registered check yet',
+        'IFT premise: forward solve converged (|grad| <= 10 tol) and Hessian PD at the returned solution, else skipped'])
+_MAT = {'real': ['optimism.material.J2Plastic', 'optimism.material.Hardening', 'optimism.ScalarRootFind', 'optimism.TensorMath',
+                 'optimism.material.HyperViscoelastic', 'optimism.material.MultiBranchHyperViscoelastic', 'jit(vmap(...)) over points'],
+        'stub': []}
+INFO['C09'] = dict(
+    rule='one evaluation = one material configuration (kinematics x hardening x rate sensitivity, random admissible constants) driven '
+         'through a seeded history of up to 24 ops on a batch of 8-16 points: step (proportional / reversing / rotating / tiny / large / '
+         'exactly-at-yield), hold, dt_jump, dup_commit, trial evaluations, restart. Invariants per point after every step against a numpy '
+         're-evaluation. non-trivial = at least one step executed',
+    sim_time_unit='sum of dt', components=_MAT, probe_names=['plastic_point_steps', 'step:at_yield', 'material_compiled', 'nan_state_not_committed'],
+    assumptions=COMMON_ASSUME + ['tolerance on yield consistency / variational clause = 100 x J2Plastic._TOLERANCE x Y0 (read from the module)',
+                                 'known findings F-C09b/* (rate sensitivity, unresolvable root) are reported as KNOWN-FINDING'])
+INFO['C10'] = dict(
+    rule='same engine; at every state the histories reach, for up to 4 points per step: autodiff stress and directional tangent vs '
+         '8th-order central differences of the library energy along seeded directions; stencils that straddle the yield switch are '
+         'skipped and counted. FE-level output (energy densities x vols == strain energy; virtual work identity) is asserted inside fe_app_sim',
+    sim_time_unit='sum of dt', components=_MAT, probe_names=['fd:yielding_point', 'fd:elastic_point'],
+    assumptions=COMMON_ASSUME + ['tolerances 1e-8 (stress) / 1e-6 (tangent) relative to modulus x strain / modulus, plus stencil rounding'])
+INFO['C11'] = dict(
+    rule='same engine with the 1- and 3-branch viscoelastic models: steps and holds with dt/tau swept over 12 decades by dt_jump ops; '
+         'dissipation >= 0, det Fv = 1, stored energy monotone in holds (recomputed from the state with numpy eigh), two-limit check at the start of each run',
+    sim_time_unit='sum of dt / tau_min', components=_MAT, probe_names=['hold_steps'],
+    assumptions=COMMON_ASSUME)
+_FE = {'real': ['optimism.Mesh', 'optimism.FunctionSpace', 'optimism.QuadratureRule', 'optimism.Mechanics', 'optimism.SparseMatrixAssembler',
+                'optimism.Objective', 'optimism.EquationSolver', 'optimism.SparseCholesky', 'material models'],
+       'stub': _SOLVER_COMPONENTS['stub']}
+INFO['C15'] = dict(
+    rule='one evaluation = one small FE configuration (jittered + affinely distorted structured mesh, order 1-2, linear-elastic or '
+         'neo-Hookean, Newmark parameters, BC subset) + up to 8 ops (time_step with variable dt, cap_then_resume, restart, Cholesky '
+         'faults). After every step: Newmark formulas, momentum balance with an oracle-assembled mass matrix, exact trapezoidal energy '
+         'identity, rigid translation. non-trivial = at least one completed step',
+    sim_time_unit='simulated time (sum of dt)', components=_FE, probe_names=['resumes', 'objective_constructed'],
+    assumptions=COMMON_ASSUME + ['energy clause premise: gamma=1/2, beta=1/4, linear-elastic, homogeneous BCs, no loads'])
+INFO['C02'] = dict(
+    rule='one evaluation = one FE configuration (mesh as C15, order 1-3, material in {linear, neo-Hookean x2, Gent, J2 x2, visco}, plane '
+         'strain or axisymmetric, pressureProjectionDegree None/0/1, BC subset, 1-4 shuffled element blocks) + up to 6 ops (prescribe, '
+         'load_step through the real solver, commit, rebuild_bcs); 25% of runs are dynamics runs. After every op: assembled K vs dense '
+         'Hessian-vector columns of the total energy, symmetry, block replica vs single block (energy, state update, stiffness)',
+    sim_time_unit='ops', components=_FE, probe_names=['blocks_compared'],
+    assumptions=COMMON_ASSUME + ['fault relevance: none (no fault kind bears on this property; simulation contributes reached states, BC changes and the lock-step replica)'])
